@@ -6,7 +6,9 @@ src, name, prop, needs, result = sys.argv[1:6]
 dst = os.path.join("/verif/seeded", name)
 os.makedirs(os.path.join(dst, "demo"), exist_ok=True)
 shutil.copy(os.path.join(src, "patch.diff"), dst)
-shutil.copy(os.path.join(src, "demo", "demo_test.rs"), os.path.join(dst, "demo"))
+for f in os.listdir(os.path.join(src, "demo")):
+    if os.path.isfile(os.path.join(src, "demo", f)):
+        shutil.copy(os.path.join(src, "demo", f), os.path.join(dst, "demo"))
 if os.path.exists(os.path.join(src, "notes.md")):
     shutil.copy(os.path.join(src, "notes.md"), dst)
 confirm = {}
@@ -20,7 +22,7 @@ meta = {
     "needs_to_manifest": needs,
     "origin": "written by an independent sub-agent given only the property text and a scratch worktree of /repo",
     "confirmed": {
-        "how": "tools/confirm_seed.sh in a scratch worktree: demo/demo_test.rs passes on /repo HEAD, fails with patch.diff applied; "
+        "how": "tools/confirm_seed.sh in a scratch worktree: the demonstration (demo/demo_test.rs or demo/demo.sh) passes on /repo HEAD, fails with patch.diff applied; "
                "cargo nextest run --workspace --offline passes (58 tests) with patch.diff applied",
         "logs": confirm,
     },
